@@ -29,6 +29,11 @@ def run(ck):
     if None in (rej, seq, apply_worker, wr):
         return
     r8_reject_removed_only_to_be_rewritten(ck, rej)
+    # the reject loop walks every entry of the rejected patch: it is the rollback loop (C04-R3), which leaves only when the stack is
+    # down to the earlier patches
+    from . import c04 as _c04
+    _c04.r3_lifo(ck, rule="C13-R10")
+    _c04.r3b_pop_after_rollback(ck, rule="C13-R10")
     # a reject holds the failed hunk *exactly*: its header carries the hunk's own numbers (C12-R7: they survive write-then-parse)
     from . import c12 as _c12
     _hh = ck.anchor("UnifiedPatchHunkHeaderWriter>::write_header_to")
